@@ -295,3 +295,36 @@ leaf(F_CK, 'AutoReset', 'clock', props=('C09', 'C05'),
      fields={'state': '1 if self.state == 0 else (2 if self.state == 1 else (2 if self.state == 2 else 0))'},
      nxt={'reset': '1 if self.state == 0 else 0'},
      prepared={'reset': 'self.state == 0 or self.state == 2'})
+
+
+def _mk_dpmem(s, c):
+    aw = c['aw']; dw = c['dw']
+    w = lambda n, k: s.wire(n, k)
+    return S.DualPortSynchronousMemory(s, 'u', w('raa', aw), w('waa', aw), w('wea', 1), w('rda', dw), w('wda', dw),
+                                       w('rab', aw), w('wab', aw), w('web', 1), w('rdb', dw), w('wdb', dw))
+
+
+# both ports read the content held before the edge (statement: "read returns the content before a same-cycle write")
+leaf(F_ST, 'DualPortSynchronousMemory', 'clock', props=('C09', 'C05'),
+     make=_mk_dpmem, cfgs=lambda t: [dict(aw=aw, dw=dw) for aw in (1, 2) for dw in (1, 8)],
+     array_fields={'data': dict(lo=0, hi=(1 << 64) - 1)},
+     nxt={'readdata_a': 'self.data[self.read_address_a.value]', 'readdata_b': 'self.data[self.read_address_b.value]'},
+     ensures=['implies(old(self.write_a.value) != 0 and not (old(self.write_b.value) != 0 and old(self.write_address_b.value) == old(self.write_address_a.value)), '
+              'self.data[old(self.write_address_a.value)] == old(self.writedata_a.value))',
+              'implies(old(self.write_b.value) != 0, self.data[old(self.write_address_b.value)] == old(self.writedata_b.value))'],
+     arrays={'data': ('self.write_address_b.value', 'self.writedata_b.value', 'False')})
+
+from py4hw.logic import simulation as SIM
+
+
+def _mk_seqn(s, c):
+    return SIM.Sequence(s, 'u', list(c['values']), s.wire('r', c['r']), once=c['once'])
+
+
+leaf('py4hw/logic/simulation.py', 'Sequence', 'clock', props=('C09', 'C05', 'C06'),
+     make=_mk_seqn, shape_key=lambda c: (len(c['values']), c['once']),
+     cfgs=lambda t: [dict(values=v, r=r, once=o) for v in ((3,), (1, 2), (0, 5, 300, -1)) for r in (1, 3, 8) for o in (False, True)],
+     requires=['0 <= self.i and self.i < self.n'],
+     fields={'i': '(self.i + 1 if self.i < self.n - 1 else self.i) if self.once else (self.i + 1) % self.n'},
+     nxt={'r': 'self.values[self.i]'},
+     ensures=['0 <= self.i and self.i < self.n'])
